@@ -739,3 +739,19 @@ Fixpoint loop_run (st : S) (e : kenv) (pending : list nat) (ins : list (list ext
       end
   end.
 End LoopRun.
+
+(* ---- Poller::newDefaultPoller (DefaultPoller.cc:18-28) and Poller::hasChannel (Poller.cc:24-29) ---------- *)
+Inductive backend := BEpoll | BPoll.
+Definition default_backend (muduo_use_poll_set : bool) : backend := if muduo_use_poll_set then BPoll else BEpoll.
+
+(* it != channels_.end() && it->second == channel, for it = channels_.find(channel->fd()) *)
+Definition ep_hasChannel (st : ep) (c : nat) : bool :=
+  match e_objs st c with
+  | Some ch => match e_map st (fd ch) with Some c' => Nat.eqb c' c | None => false end
+  | None => false
+  end.
+Definition pp_hasChannel (st : pp) (c : nat) : bool :=
+  match p_objs st c with
+  | Some ch => match p_map st (fd ch) with Some c' => Nat.eqb c' c | None => false end
+  | None => false
+  end.
